@@ -20,8 +20,8 @@ FUNCTIONS = [
     "nextflow/scripts/batchie.py: get_screen_from_job_output, get_test_screen_from_job_output, validate_job_dir_and_return_meta, get_theta_and_dist_chunks, get_selected_plates, dir_sort_key",
 ]
 BOUNDS = {
-    "quick": "retrospective mode: 3 plates, batch size symbolic in 1..2; prospective mode: batch size 1..2; one interruption at any numbered mutation point of the whole run (each mkdir of each path component, each entry removed by rmtree, inside a pipeline run with any dependency-closed subset of its outputs published, just after a step)",
-    "thorough": "retrospective: 4 plates, batch size 1..3; prospective batch size 1..3; additionally every pair of interruptions (second one during the recovery)",
+    "quick": "retrospective mode: 3 plates (batch size symbolic in 1..2) and 4 plates (batch 1..3); prospective mode: batch size 1..3; one interruption at any numbered mutation point of the whole run (each mkdir of each path component, each entry removed by rmtree, inside a pipeline run with any dependency-closed subset of its outputs published, just after a step); every pair of interruptions (second one during the recovery) for 3 plates / batch <= 2",
+    "thorough": "additionally retrospective 5 plates with batch 1..4, two interruptions for 4 plates / batch <= 3, prospective batch up to 4 and two interruptions with batch <= 3",
 }
 ASSUMPTIONS = [
     "filesystem model: a directory tree with atomic single-entry mkdir / unlink / file publish; os.makedirs and shutil.rmtree are sequences of such steps",
@@ -41,12 +41,16 @@ EXCEPTIONS_ARE_VIOLATIONS = True
 def configs(tier, seed):
     q = tier == "quick"
     out = [dict(name="retrospective P=3", h="resume", mode="retrospective", P=3, bmax=2, crashes=1),
-           dict(name="prospective", h="resume", mode="prospective", P=3, bmax=2, crashes=1)]
+           dict(name="retrospective P=4", h="resume", mode="retrospective", P=4, bmax=3, crashes=1),
+           dict(name="prospective", h="resume", mode="prospective", P=3, bmax=3, crashes=1),
+           dict(name="retrospective P=12 batch=1 (more than ten iterations)", h="resume", mode="retrospective", P=12, bmax=1, crashes=1),
+           dict(name="retrospective P=3 two interruptions", h="resume", mode="retrospective", P=3, bmax=2, crashes=2),
+           dict(name="prospective two interruptions", h="resume", mode="prospective", P=3, bmax=2, crashes=2)]
     if not q:
-        out += [dict(name="retrospective P=4", h="resume", mode="retrospective", P=4, bmax=3, crashes=1),
-                dict(name="retrospective P=3 two interruptions", h="resume", mode="retrospective", P=3, bmax=2, crashes=2),
-                dict(name="prospective b<=3", h="resume", mode="prospective", P=3, bmax=3, crashes=1),
-                dict(name="prospective two interruptions", h="resume", mode="prospective", P=3, bmax=2, crashes=2)]
+        out += [dict(name="retrospective P=5", h="resume", mode="retrospective", P=5, bmax=4, crashes=1),
+                dict(name="retrospective P=4 two interruptions", h="resume", mode="retrospective", P=4, bmax=3, crashes=2),
+                dict(name="prospective b<=4", h="resume", mode="prospective", P=3, bmax=4, crashes=1),
+                dict(name="prospective b<=3 two interruptions", h="resume", mode="prospective", P=3, bmax=3, crashes=2)]
     return out
 
 
@@ -106,6 +110,9 @@ class Pipeline:
                    excludes=exc[0] if exc else None, initialize=a.get("--initialize"), reveal=a.get("--reveal"), name=name)
         self.launches.append((out, key))
         self.nruns += 1
+        if self.nruns > 6 * self.P + 12:
+            self.ctx.fail("the script keeps launching steps (a simulation of %d plates needs at most %d)" % (self.P, self.P),
+                          key="%s: script does not terminate" % self.mode, detail="last launch: %s" % out)
         files = []  # (filename, content, deps)
         if mode == "retrospective":
             if a["--initialize"] == "true":
